@@ -421,7 +421,7 @@ func c05GenDag(r *rand.Rand, nv, nev, ncheat int, forkP float64) *c05Dag {
 	pPar := 0.3 + 0.6*r.Float64()
 	for len(d.evs) < nev {
 		c := r.Intn(nv)
-		if r.Float64() > lag[c] {
+		if r.Float64() > lag[c] && !d.cheaters[c] {
 			continue
 		}
 		sp := -1 // index of the self-parent, -1 = none (seq 1)
@@ -573,7 +573,7 @@ func c05PickDag(r *rand.Rand, tier string, i int) *c05Dag {
 	if i%7 == 0 {
 		ncheat = 0
 	}
-	return c05GenDag(r, nv, nev, ncheat, 0.15+0.3*r.Float64())
+	return c05GenDag(r, nv, nev, ncheat, 0.2+0.5*r.Float64())
 }
 
 var c05FcSizes = []int{0, 1, 200, 200, 7}
@@ -604,8 +604,11 @@ func init() {
 						if j%6 == 5 {
 							in = append(in, ";", "V", "3", ";", "M", "3")
 						}
+						if j%16 == 15 { // all pairs so far (old B, new A)
+							in = append(in, ";", "Q", "0", "0")
+						}
 					}
-					in = append(in, ";", "Q", "18", "0", ";", "V", "0", ";", "M", "0")
+					in = append(in, ";", "Q", "0", strconv.Itoa(r.Intn(2)), ";", "V", "0", ";", "M", "0")
 					emit(in...)
 					i++
 				}
